@@ -16,7 +16,7 @@ PROPS = {
         # batches whose notification is still pending), so the kernel is re-verified here
         # c16_policy: "... no matter what has been evicted" rests on the cache never evicting an entry whose owner reports it pinned
         # (pin count > 0 = an unflushed write): the policy, its dispatcher and the atomic remove closure are re-verified here
-        "verus": ["c09_staging", "c10_writebehind", "c16_policy"],
+        "verus": ["c09_staging", "c09_pins", "c10_writebehind", "c16_policy"],
         "kani": [],
         "native": [
             {"name": "cached_maps_read_your_writes", "bin": "replay_c09", "crate": "replay", "tiers": ("quick", "thorough"),
@@ -25,6 +25,7 @@ PROPS = {
         "witness": witness.c09,
         "assumptions": [
             "ONLY the overlay arithmetic of the key-to-set cache is under contract: Ord for VersionedOperation, ConcurrentLog::apply_message_to_heap, ConcurrentLog::replay (+ spec-level lemma: overlay == fold of all operations in issue order, on any base set)",
+            "c09_pins: the per-entry state machine of the wide-column caches -- the closures `WideColumnCache::insert` and `::remove` run on the locked entry are under CLOSURE contracts (spliced in textually: text-sub): afterwards the entry holds the written value resp. remembered absence, the pin count went up by exactly one iff the batch updated the key, an entry with pins > 0 is never dropped (it is what hides the stale store value), the replaced value is returned. Model: tiny_lfu::Entry handles HOLD the locked slot (prophecy contracts, as the HashMap entry model); AtomicI32 under the lock is a plain cell; TinyLFU::entry itself (concurrent map) only promises to call the closure on a well-formed handle; ASSUMPTION: fewer than 2^31 - 1 unflushed batches per key",
             "NOT decided: WideColumnCache / CacheSingleMap / CacheDynamicMap read-your-writes (pin counts x TinyLFU eviction x single-flight fills x after-commit thread: a concurrent argument spanning four components), races between reads and flushes, get_snapshot's glue (RwLock, deferred SegQueue, collect + sort_by_key), fetch_entry / MergeIterator (generic iterators): these are covered only by the bounded run",
             "std models: BinaryHeap (abstract-order view; peek/pop yield a greatest element w.r.t. Ord), HashSet view under obeys_key_model, derived ordering of Epoch, element Clone/Hash/Eq sanity (axiom_element_type)",
             "FxBuildHasher is an interface stand-in; ConcurrentLog is a struct stand-in (the functions under contract are associated functions that do not touch self)",
